@@ -33,6 +33,9 @@ pub struct Faults {
     pub stale_delivery: f64,
     pub adversary: f64,
     pub chain_down: f64,
+    /// operator restarts with another genesis verification key (no new genesis certificate)
+    #[serde(default)]
+    pub rotate_genesis: f64,
     /// a lagging node learns of the chain's progress in the middle of a cycle
     #[serde(default)]
     pub mid_cycle: f64,
@@ -137,6 +140,9 @@ pub enum Event {
     Restart,
     /// operator action: restart with these protocol parameters in the configuration file
     Reconfigure { k: u64, m: u64, phi_f: f64 },
+    /// operator error: restart with another genesis verification key in the configuration (the
+    /// key published to clients from now on) without bootstrapping a new genesis certificate
+    RotateGenesisKey,
     Genesis,
     Forge { id: u32, from: u32, kind: ForgeKind, as_party: usize },
     /// C15: the aggregator's next DB statement number `statement` (counted from this event on)
@@ -193,6 +199,7 @@ impl Event {
             Event::DeliverDmqBatch { .. } => "deliver-dmq-batch",
             Event::Restart => "restart",
             Event::Reconfigure { .. } => "reconfigure",
+            Event::RotateGenesisKey => "rotate-genesis-key",
             Event::Genesis => "genesis",
             Event::Forge { .. } => "forge",
             Event::ArmDbFault { crash, .. } => {
@@ -408,7 +415,7 @@ impl World {
         let agg = AggregatorNode::new(
             scratch.sub("aggregator"),
             view.clone(),
-            AggSettings { protocol_parameters: sc.parameters(), entity_types, dmq_dedup: true },
+            AggSettings { protocol_parameters: sc.parameters(), entity_types, dmq_dedup: true, genesis_vk_hex: None },
         );
         let db_fault: Arc<Mutex<DbFaultState>> = Default::default();
         let link = std::sync::Arc::new(LinkShared {
@@ -704,6 +711,18 @@ impl World {
                     return skip("aggregator down");
                 }
                 let (label, err) = self.agg.tick();
+                if std::mem::take(&mut self.agg.cycle_waited_for_artifact) {
+                    self.hit("probe_cycle_waited_for_the_artifact_task");
+                }
+                if label == "hung" {
+                    // a process whose state machine is stuck gets restarted by its operator
+                    self.hit("probe_cycle_hung_aggregator_restarted");
+                    self.stop_aggregator();
+                    if let Err(e) = self.start_aggregator() {
+                        return ok(format!("-> hung ; restart FAILED: {e:#}"));
+                    }
+                    self.restarts_at.push(self.step);
+                }
                 self.last_tick = (label.clone(), err.clone());
                 self.tick_log.push((self.step, label.clone(), err.clone()));
                 ok(format!("-> {label}{}", err.as_ref().map(|e| format!(" ERR {}", first_line(e))).unwrap_or_default()))
@@ -979,6 +998,23 @@ impl World {
                 self.restarts_at.push(self.step);
                 self.hit("fault_restart_with_other_protocol_parameters");
                 ok(format!("configuration now k={k} m={m} phi_f={phi_f}"))
+            }
+            Event::RotateGenesisKey => {
+                if self.agg.settings.genesis_vk_hex.is_some() {
+                    return skip("already rotated");
+                }
+                let other = mithril_common::crypto_helper::GenesisSigner::from_ed25519(
+                    mithril_common::crypto_helper::GenesisEd25519Signer::create_test_signer(crate::parties::SeedRng(sim_core::Rng::new(99))),
+                );
+                let hex = other.create_verifier().to_ed25519_verification_key().to_json_hex().expect("genesis vk");
+                self.stop_aggregator();
+                self.agg.settings.genesis_vk_hex = Some(hex);
+                if let Err(e) = self.start_aggregator() {
+                    return ok(format!("restart FAILED: {e:#}"));
+                }
+                self.restarts_at.push(self.step);
+                self.hit("fault_restart_with_other_genesis_verification_key");
+                ok(String::new())
             }
             Event::Genesis => {
                 if !self.agg.is_up() {
